@@ -204,6 +204,24 @@ def leanchecker(ctx, modules):
 
 # ---------------------------------------------------------------- tie B: harness
 
+# optional statement-coverage measurement of the correspondence harness (VERIF_COVER=<dir>); used
+# by tools/coverage.sh to list the go-snaps statements no check ever executes
+COVER = os.environ.get('VERIF_COVER')
+COVER_BINS = set()
+
+
+def cover_build_flags():
+    return ['-cover', '-covermode=count', '-coverpkg=github.com/gkampitakis/go-snaps/...'] if COVER else []
+
+
+def cover_run_flags():
+    if not COVER:
+        return []
+    os.makedirs(COVER, exist_ok=True)
+    import uuid
+    return ['-test.coverprofile=%s/%s.out' % (COVER, uuid.uuid4().hex)]
+
+
 def build_harness(ctx, tags='verif', name='snaps.test'):
     out_bin = os.path.join(ctx.tmp, name)
     ov = os.path.join(ctx.tmp, name + '.overlay.json')
@@ -211,7 +229,7 @@ def build_harness(ctx, tags='verif', name='snaps.test'):
     for f in glob.glob(ROOT + '/harness/snaps/*.go'):
         rep[REPO + '/snaps/zz_verif_' + os.path.basename(f)] = f
     json.dump({'Replace': rep}, open(ov, 'w'))
-    rc, out = sh(['go', 'test', '-c', '-vet=off', '-tags', tags, '-overlay', ov, '-o', out_bin, './snaps'], cwd=REPO)
+    rc, out = sh(['go', 'test', '-c', '-vet=off'] + cover_build_flags() + ['-tags', tags, '-overlay', ov, '-o', out_bin, './snaps'], cwd=REPO)
     ok = rc == 0 and os.path.exists(out_bin)
     ctx.add_obl('B.harness-builds', ok, '' if ok else out[-3000:])
     if ok:
@@ -227,9 +245,11 @@ def build_pkg_harness(ctx, pkg, srcdir, name):
     for f in glob.glob('%s/harness/%s/*.go' % (ROOT, srcdir)):
         rep['%s/%s/zz_verif_%s' % (REPO, pkg, os.path.basename(f))] = f
     json.dump({'Replace': rep}, open(ov, 'w'))
-    rc, out = sh(['go', 'test', '-c', '-vet=off', '-tags', 'verif', '-overlay', ov, '-o', out_bin, './' + pkg], cwd=REPO)
+    rc, out = sh(['go', 'test', '-c', '-vet=off'] + cover_build_flags() + ['-tags', 'verif', '-overlay', ov, '-o', out_bin, './' + pkg], cwd=REPO)
     ok = rc == 0 and os.path.exists(out_bin)
     ctx.add_obl('B.harness-builds ' + pkg, ok, '' if ok else out[-3000:])
+    if COVER:
+        COVER_BINS.add(out_bin)
     return out_bin if ok else None
 
 
@@ -242,7 +262,7 @@ def run_raw(ctx, binary, testname, ops, env=None, timeout=1800):
     e.update(dict(VERIF_OPS=opsf, VERIF_OUT=outf, NO_COLOR='1'))
     if env:
         e.update(env)
-    p = subprocess.run([binary, '-test.run', '^%s$' % testname, '-test.count=1'], env=e, cwd=d,
+    p = subprocess.run([binary, '-test.run', '^%s$' % testname, '-test.count=1'] + (cover_run_flags() if binary in COVER_BINS else []), env=e, cwd=d,
                        stdout=subprocess.PIPE, stderr=subprocess.STDOUT, timeout=timeout)
     lines = open(outf).read().split('\n') if os.path.exists(outf) else []
     if lines and lines[-1] == '':
@@ -325,7 +345,7 @@ def run_impl(ctx, ops, env=None, timeout=600):
     if full.get('NO_COLOR') == '':
         full.pop('NO_COLOR')
     try:
-        p = subprocess.run([ctx.harness, '-test.run', '^TestVerifHarness$', '-test.count=1'], env=full, cwd=d,
+        p = subprocess.run([ctx.harness, '-test.run', '^TestVerifHarness$', '-test.count=1'] + cover_run_flags(), env=full, cwd=d,
                            stdout=subprocess.PIPE, stderr=subprocess.STDOUT, timeout=timeout)
         tail = p.stdout.decode('utf-8', 'replace')[-2000:]
         rc = p.returncode
